@@ -22,7 +22,18 @@ import mc_common as MC
 
 LEVEL = "model_checking"
 DRIVERS = {"mc_unit_driver": MC.DRIVERS["mc_unit_driver"]}
-META = None
+META = {"text": "TLC checks the definitions of Hb.tla (happens-before = transitive closure of occurs-before-and-dependent, documented race "
+                "definition = the statement's maximal-unordered-predecessor formulation = what the clock-vector mechanism computes) on "
+                "every execution of the small scope with every dependency relation, and validates hundreds of executions of up to 40 real "
+                "transitions over up to 6 actors recorded from the real odpor::Execution (happens_before for all pairs, "
+                "get_racing_events_of for all events, after every push and at the end) against the same definitions evaluated on the "
+                "real logged dependency matrix; model_checking because both the definitions (exhaustively, small scope) and the "
+                "implementation's answers (trace validation) are decided by TLC.",
+        "note": "Trusted: TLC, the driver's logging of depends()/happens_before()/get_racing_events_of(); the dependency relation itself "
+                "is data (its correctness is C39). Conformance holds for the executions run; exhaustiveness only for the specification "
+                "within <= 5 (thorough 6) events and 3 actors. get_reversible_races_of and data-race epochs are not covered.",
+        "technique": "TLC model checking of Hb/HbMC + TLC trace validation (HbTrace) of executions built in the real Execution class "
+                     "from transitions decoded by mc::deserialize_transition"}
 
 
 def _tlc_trace(ctx, recs, tag):
